@@ -8,6 +8,7 @@ import (
 
 	"github.com/tsenart/vegeta/v12/internal/zzverif/vgen"
 	"github.com/tsenart/vegeta/v12/internal/zzverif/vh"
+	vegeta "github.com/tsenart/vegeta/v12/lib"
 	"github.com/tsenart/vegeta/v12/lib/plot"
 	"pgregory.net/rapid"
 )
@@ -55,6 +56,28 @@ func runC17Plot(c vgen.PlotCase) error {
 	}
 	if err := vgen.CheckPlot(c, pd2); err != nil {
 		return fmt.Errorf("second rendering of the same plot: %v", err)
+	}
+	// ... and so does a plot fed from one Result variable that is overwritten for every arrival (a decode loop)
+	pr := plot.New(plot.Title("c17"), plot.Downsample(c.Threshold), plot.Label(plot.ErrorLabeler))
+	var reused vegeta.Result
+	for _, ref := range c.Arrival {
+		reused = *c.Result(ref)
+		if err := pr.Add(&reused); err != nil {
+			return fmt.Errorf("Add from a reused Result variable: %v", err)
+		}
+	}
+	reused = vegeta.Result{}
+	pr.Close()
+	var bufr bytes.Buffer
+	if _, err := pr.WriteTo(&bufr); err != nil {
+		return fmt.Errorf("WriteTo (results added from one reused Result variable): %v", err)
+	}
+	pdr, err := vgen.ParsePlotHTML(bufr.String())
+	if err != nil {
+		return fmt.Errorf("plot of results added from one reused Result variable: %v", err)
+	}
+	if err := vgen.CheckPlot(c, pdr); err != nil {
+		return fmt.Errorf("plot of results added from one Result variable that is overwritten for every arrival: %v", err)
 	}
 	// ... and so does a plot that was rendered once while only part of the results had arrived
 	q := plot.New(plot.Title("c17"), plot.Downsample(c.Threshold), plot.Label(plot.ErrorLabeler))
